@@ -27,6 +27,13 @@ let int_of_n = function M.N0 -> 0 | M.Npos p -> int_of_pos p
 let rec pos_of_int n = if n = 1 then M.XH else if n land 1 = 0 then M.XO (pos_of_int (n lsr 1)) else M.XI (pos_of_int (n lsr 1))
 let n_of_int n = if n = 0 then M.N0 else M.Npos (pos_of_int n)
 
+let hex_of_bytes (l : M.byte list) : string =
+  if l = [] then "-" else begin
+    let b = Buffer.create 256 in
+    List.iter (fun c -> Buffer.add_string b (Printf.sprintf "%02x" (int_of_n (M.b2n c)))) l;
+    Buffer.contents b
+  end
+
 let rb = function M.Ok true -> "T" | M.Ok false -> "F" | M.Panic -> "P"
 let pb b = if b then "T" else "F"
 
@@ -64,6 +71,8 @@ let table : (string * (string list -> string)) list = [
   "isValidHostStart", (fun a -> pb (M.isValidHostStart byte_tab.(int_of_string (List.hd a))));
   "IsValidAlpha", strf (fun s -> pb (M.isValidAlpha s));
   "IsNumeric", strf (fun s -> pb (M.isNumeric s));
+  "Migrate", strf (fun s -> let out = M.migrate_content s in
+                            string_of_int (int_of_nat (M.migrate_count s)) ^ " " ^ hex_of_bytes out);
   "RuneCount", strf (fun s -> string_of_int (int_of_nat (M.rune_count s)));
   "Runes", strf (fun s -> String.concat "," (List.map (fun r -> string_of_int (int_of_n r)) (M.runes s)));
 ]
